@@ -30,7 +30,11 @@ CHECK = {
                    "interchangeable proofs under original vs reloaded / downsized vs fresh parameter sets; every recomputed "
                    "part of every reloaded pk equal to the generated key's; proofs made with original and every reloaded pk "
                    "(all five compatible format pairs) verified with original, every reloaded vk and the vk inside every "
-                   "reloaded pk; downsize = fresh setup for every k' <= k.",
+                   "reloaded pk; downsize = fresh setup for every k' <= k. Regression cases of the repaired reader (/repo commit "
+                   "c2433f0; theorem pk_read_counts_checked: a successful ProvingKey::read returns one polynomial of 2^k values per "
+                   "fixed commitment / permutation column): key images with a fixed or permutation polynomial too few / too many, or "
+                   "one value too short / too long, must be refused with an error value in every format (model: `err shape`); an "
+                   "acceptance or a panic is an oracle failure.",
     "trusted_base": [
         "element codecs of curve points and field elements are abstract in the model (laws assumed: C10/C11/C16)",
         "BLAKE2b is specified by RFC 7693 (model checked against blake2b_simd on every trepr line)",
